@@ -487,7 +487,7 @@ func expandFrom(prefix []pubEvent, tr []pubEvent, truncated *bool, depth int) []
 
 func (a *analyzer) guardOf(fn *ssa.Function) []string {
 	for _, og := range a.cfg.OnceGuards {
-		if og.Func == shortName(fn.String()) {
+		if og.Func == shortName(fn.String()) && guardPresent(fn, og.Mentions) {
 			return og.Unpublished
 		}
 	}
